@@ -3,8 +3,9 @@ import time, subprocess, tempfile, os
 from z3 import Solver, Not, unsat, sat, unknown, set_param
 
 
-def check_one(hyps, goal, axioms, timeout_ms, want_model=False):
+def check_one(hyps, goal, axioms, timeout_ms, want_model=False, seed=0):
     s = Solver(); s.set('timeout', timeout_ms)
+    if seed: s.set('random_seed', seed)
     s.add(*axioms); s.add(*hyps); s.add(Not(goal))
     t0 = time.time()
     r = s.check()
@@ -53,6 +54,12 @@ def discharge(obs, axioms, timeout_ms=10000, shard=None, use_cvc5=True, cover=Fa
                 a['proved'] += 1; a['backends']['z3api-cover'] = a['backends'].get('z3api-cover', 0) + 1
             continue
         r, be, dt, info, solver = check_one(hyps, goal, axioms, timeout_ms, want_model=True)
+        a['secs'] += dt
+        for attempt in (1, 2):
+            # `unknown` is usually a heuristic miss, not a property of the formula: retry with another seed and a larger budget
+            if r != 'unknown': break
+            r, be, dt, info, solver = check_one(hyps, goal, axioms, timeout_ms * (2 if attempt == 1 else 4), want_model=True, seed=attempt * 7919)
+            a['retries'] = a.get('retries', 0) + 1
         if r == 'unknown' and use_cvc5:
             r2 = cvc5_check(solver, timeout_s=max(5, timeout_ms // 2000))
             if r2 == 'unsat': r, be = 'unsat', 'cvc5'
